@@ -109,9 +109,14 @@ def run(vc):
                         if z3.is_implies(ax) and z3.is_const(ax.arg(1)) and ax.arg(1).decl().name().startswith("any[switch"):
                             if same(ax.arg(0)):
                                 p.assume(z3.Implies(pred, ax.arg(1)))
-                        elif z3.is_and(ax) and ax.num_args() == 2 and z3.is_implies(ax.arg(1)) and "count[switch" in ax.arg(0).sexpr()[:40]:
-                            if same(ax.arg(1).arg(0)):
-                                p.assume(z3.Implies(pred, ax.arg(1).arg(1)))
+                        elif z3.is_and(ax) and "count[switch" in ax.arg(0).sexpr()[:40]:
+                            # count axiom: And(c >= 0, c <= n, Implies(And(n > 0, mask), c >= 1))
+                            for part in ax.children():
+                                if z3.is_implies(part):
+                                    ante = part.arg(0)
+                                    cands = [ante] + ([z3.And(*ante.children()[1:])] if z3.is_and(ante) and ante.num_args() >= 2 else [])
+                                    if any(same(mm) for mm in cands):
+                                        p.assume(z3.Implies(pred, part.arg(1)))
 
                 def open_at(code, idx_e, bus_e=None):
                     """an open switch with this code refers to the element (at that bus)"""
